@@ -1284,7 +1284,11 @@ func vC18KeyPool(r *rand.Rand, prefix string, special bool) []string {
 	if special {
 		for i := 0; i < 1+r.Intn(2); i++ {
 			base := vC18Name(r)
-			switch r.Intn(6) {
+			switch r.Intn(8) {
+			case 6: // white space / '#' as the very first byte, and as the last
+				pool = append(pool, []string{" ", "\t", "\n", "#"}[r.Intn(4)]+"lead."+base)
+			case 7:
+				pool = append(pool, base+[]string{" ", "\r", "\v", "\f"}[r.Intn(4)])
 			case 0:
 				pool = append(pool, "a#b."+base)
 			case 1:
